@@ -691,8 +691,9 @@ fn dlt_payload<T: NomByteOrder>(
     msg_type: Option<MessageType>,
 ) -> IResult<&[u8], PayloadContent, DltParseError> {
     if verbose {
-        match count(dlt_argument::<T>, arg_cnt as usize)(input) {
-            Ok((rest, arguments)) => {
+        let (rest, payload) = take(payload_length)(input)?;
+        match count(dlt_argument::<T>, arg_cnt as usize)(payload) {
+            Ok((_, arguments)) => {
                 if let Some(MessageType::NetworkTrace(_)) = msg_type {
                     let slices = arguments
                         .iter()
@@ -706,6 +707,10 @@ fn dlt_payload<T: NomByteOrder>(
                     Ok((rest, PayloadContent::Verbose(arguments)))
                 }
             }
+            Err(nom::Err::Incomplete(_)) => Err(Error(DltParseError::ParsingHickup(format!(
+                "{} arguments do not fit into the payload of {} bytes",
+                arg_cnt, payload_length
+            )))),
             Err(e) => Err(add_context(
                 e,
                 format!("Problem parsing {} arguments", arg_cnt),
